@@ -225,7 +225,7 @@ def compare(run, g, obs, tab, key, text):
 def check(run):
     rnd = random.Random(run.seed * 29 + 4)
     thorough = run.tier == 'thorough'
-    files = [gen_file(rnd, with_custom=(n % 3 != 0)) for n in range(500 if thorough else 100)]
+    files = [gen_file(rnd, with_custom=(n % 3 != 0)) for n in range(2500 if thorough else 100)]
     cases = [{'mode': 'parse', 'file': lines, 'custom': ['EDGE_DIST_A', 'EDGE_DIST_B']} for lines, _ in files]
     old = EC.headroom_class
     EC.headroom_class = lambda c: (id(c),)
